@@ -100,6 +100,9 @@ def call (w : Inputs) : String → List Value → St → Option Res
   -- std: `Duration::from_millis(ms: u64)`; cannot overflow
   | "Duration::from_millis", [.int t ms], st =>
     if (t = .u64 ∨ t = .infer) ∧ 0 ≤ ms then some (.val (.duration (ms * 1000000)) st) else none
+  -- std `ops::ControlFlow<B, C>`: the two variants `Break(b)` / `Continue(c)` (a std enum, not in the generated tables)
+  | "ControlFlow::Break", [v], st => some (.val (.enumv "ControlFlow::Break" [v]) st)
+  | "ControlFlow::Continue", [v], st => some (.val (.enumv "ControlFlow::Continue" [v]) st)
   -- std: `String::new()`: the empty string
   | "String::new", [], st => some (.val (.ext "String" [.ext "empty" []]) st)
   -- std: `File::open(path) -> io::Result<File>`.  The input is the state of the file at this moment:
@@ -114,6 +117,11 @@ def call (w : Inputs) : String → List Value → St → Option Res
   | _, _, _ => none
 
 def method (w : Inputs) : Value → String → List Value → St → Option Res
+  -- std `ControlFlow::is_break` / `is_continue`
+  | .enumv "ControlFlow::Break" [_], "is_break", [], st => some (.val (.bool true) st)
+  | .enumv "ControlFlow::Continue" [_], "is_break", [], st => some (.val (.bool false) st)
+  | .enumv "ControlFlow::Break" [_], "is_continue", [], st => some (.val (.bool false) st)
+  | .enumv "ControlFlow::Continue" [_], "is_continue", [], st => some (.val (.bool true) st)
   -- std: `Instant::checked_sub(Duration) -> Option<Instant>`
   | .ext "Instant" [.int _ t], "checked_sub", [.duration d], st =>
     some (.val (if instantLo ≤ t - d then .enumv "Some" [instant (t - d)] else .enumv "None" []) st)
